@@ -425,7 +425,7 @@ def twin_of(ops):
 
 def norm_twin(op, res):
     k = op.split()[0]
-    if k in ('del', 'delm') or k.startswith('trim') or k in ('cupd', 'cdel', 'c1upd', 'c1del'):
+    if k in ('del', 'delm') or k.startswith('trim') or k in ('cupd', 'cdel', 'c1upd', 'c1del', 'compact'):
         out = []
         for r in res:
             t = r.split()
@@ -548,7 +548,7 @@ reg(HistProp('C15', cfg_c15, probes_c15, quick=400, thorough=12000,
 reg(HistProp('C16', cfg_c16, probes_c16, quick=400, thorough=12000,
              rule='small key set with repeats, 35% tombstones, nil key; FindUpdates/FindDeletes and Compact*(Multi) at cut-offs '
                   'around the current time; latest-value map checked before/after; non-trivial = at least 2 compactions',
-             nontrivial=lambda ops: sum(1 for o in ops if o.startswith('cupd') or o.startswith('cdel')) >= 2))
+             nontrivial=lambda ops: sum(1 for o in ops if o.startswith('cupd') or o.startswith('cdel') or o.startswith('compact')) >= 2))
 def cfg_c07(rng):
     p = prof_base(rng, time_mode='mono', versions=rng.choice([[2], [1, 2]]), p_checkrecover=0.9, p_recoverdir=0.5)
     p['weights'] = w(reopen=30)
